@@ -211,3 +211,139 @@ namespace TxStore
 @[simp] theorem bind_ok {α β : Type} (a : α) (f : α → M β) : (Except.ok a >>= f) = f a := rfl
 @[simp] theorem bind_error {α β : Type} (e : Err) (f : α → M β) : ((Except.error e : M α) >>= f) = Except.error e := rfl
 end TxStore
+
+/-! ### sums over a bucket, sortedness of `Nat`-keyed buckets -/
+namespace TxStore.KMap
+variable {κ ν : Type} [DecidableEq κ]
+
+theorem mem_iff_find? (m : KMap κ ν) (hn : NodupKeys m) (k : κ) (v : ν) : (k, v) ∈ m ↔ find? m k = some v :=
+  ⟨find?_of_mem m hn, mem_of_find? m⟩
+
+theorem sum_erase (g : κ × ν → Int) (m : KMap κ ν) (k : κ) (hn : NodupKeys m) :
+    ((erase m k).map g).sum = (m.map g).sum - (match find? m k with | some v => g (k, v) | none => 0) := by
+  induction m with
+  | nil => simp [erase]
+  | cons p t ih =>
+    obtain ⟨a, b⟩ := p
+    have h' : a ∉ keys t ∧ NodupKeys t := by
+      unfold NodupKeys keys at hn; rw [List.map_cons, List.nodup_cons] at hn; exact hn
+    have iht := ih h'.2
+    unfold erase at iht ⊢
+    by_cases h1 : a = k
+    · subst h1
+      have hnone : find? t a = none := by
+        cases hf : find? t a with
+        | none => rfl
+        | some v => exact absurd ((mem_keys_iff_find? t a).mpr (by simp [hf])) h'.1
+      have hfilt : List.filter (fun p : κ × ν => !decide (p.1 = a)) t = t := by
+        rw [List.filter_eq_self]
+        intro q hq
+        have : q.1 ≠ a := by
+          intro e; apply h'.1; rw [← e]; exact List.mem_map.mpr ⟨q, hq, rfl⟩
+        simp [this]
+      simp only [List.filter_cons, decide_true, Bool.not_true, Bool.false_eq_true, if_false, find?_cons, if_true,
+        List.map_cons, List.sum_cons, hfilt]
+      omega
+    · simp only [List.filter_cons, h1, decide_false, Bool.not_false, if_true, List.map_cons, List.sum_cons,
+        find?_cons, if_false]
+      rw [iht]; omega
+
+theorem sum_place [KOrd κ] (g : κ × ν → Int) (m : KMap κ ν) (k : κ) (v : ν) :
+    ((place m k v).map g).sum = g (k, v) + (m.map g).sum := by
+  induction m with
+  | nil => simp [place]
+  | cons p t ih =>
+    obtain ⟨a, b⟩ := p
+    unfold place
+    by_cases h2 : KOrd.lt k a = true
+    · simp [h2]
+    · simp only [h2, if_false, Bool.false_eq_true, List.map_cons, List.sum_cons, ih]; omega
+
+theorem sum_insert [KOrd κ] (g : κ × ν → Int) (m : KMap κ ν) (k : κ) (v : ν) (hn : NodupKeys m) :
+    ((insert m k v).map g).sum =
+      (m.map g).sum - (match find? m k with | some v0 => g (k, v0) | none => 0) + g (k, v) := by
+  unfold insert
+  rw [sum_place, sum_erase g m k hn]; omega
+
+omit [DecidableEq κ] in
+theorem sorted_place_nat {ν : Type} (m : KMap Nat ν) (k : Nat) (v : ν)
+    (hs : (m.map (·.1)).Pairwise (· < ·)) (hk : k ∉ keys m) : ((place m k v).map (·.1)).Pairwise (· < ·) := by
+  induction m with
+  | nil => simp [place]
+  | cons p t ih =>
+    obtain ⟨a, b⟩ := p
+    rw [List.map_cons, List.pairwise_cons] at hs
+    have hka : k ≠ a := by intro e; apply hk; simp [keys, e]
+    have hkt : k ∉ keys t := by intro e; apply hk; simp only [keys, List.map_cons, List.mem_cons]; exact Or.inr e
+    unfold place
+    by_cases h2 : KOrd.lt k a = true
+    · have hlt : k < a := by simpa [KOrd.lt] using h2
+      simp only [h2, if_true, List.map_cons, List.pairwise_cons]
+      refine ⟨?_, hs⟩
+      intro x hx
+      cases hx with
+      | head => exact hlt
+      | tail _ hx' => have := hs.1 x hx'; omega
+    · have hge : ¬ k < a := by simpa [KOrd.lt] using h2
+      simp only [h2, if_false, Bool.false_eq_true, List.map_cons, List.pairwise_cons]
+      refine ⟨?_, ih hs.2 hkt⟩
+      intro x hx
+      have hx' : x ∈ keys (place t k v) := hx
+      rcases (mem_keys_place t k v x).mp hx' with e | e
+      · omega
+      · exact hs.1 x e
+
+theorem sorted_insert_nat {ν : Type} (m : KMap Nat ν) (k : Nat) (v : ν)
+    (hs : (m.map (·.1)).Pairwise (· < ·)) : ((insert m k v).map (·.1)).Pairwise (· < ·) := by
+  unfold insert
+  apply sorted_place_nat
+  · unfold erase
+    rw [List.pairwise_map] at hs ⊢
+    exact hs.filter _
+  · intro hm; exact ((mem_keys_erase m k k).mp hm).2 rfl
+
+theorem sorted_erase_nat {ν : Type} (m : KMap Nat ν) (k : Nat)
+    (hs : (m.map (·.1)).Pairwise (· < ·)) : ((erase m k).map (·.1)).Pairwise (· < ·) := by
+  unfold erase
+  rw [List.pairwise_map] at hs ⊢
+  exact hs.filter _
+
+end TxStore.KMap
+
+namespace TxStore.KMap
+variable {κ ν : Type} [DecidableEq κ]
+
+theorem erase_place_self [KOrd κ] (m : KMap κ ν) (k : κ) (v : ν) : erase (place m k v) k = erase m k := by
+  induction m with
+  | nil => simp [place, erase]
+  | cons p t ih =>
+    obtain ⟨a, b⟩ := p
+    unfold place
+    by_cases h2 : KOrd.lt k a = true
+    · simp [h2, erase, List.filter_cons]
+    · simp only [h2, if_false, Bool.false_eq_true]
+      unfold erase at ih ⊢
+      simp only [List.filter_cons, ih]
+
+theorem erase_erase (m : KMap κ ν) (k : κ) : erase (erase m k) k = erase m k := by
+  unfold erase; rw [List.filter_filter]; simp
+
+theorem insert_insert [KOrd κ] (m : KMap κ ν) (k : κ) (v w : ν) : insert (insert m k v) k w = insert m k w := by
+  unfold insert
+  rw [erase_place_self, erase_erase]
+
+/-- erasing the last (greatest) key of a sorted `Nat`-keyed bucket removes exactly the last entry -/
+theorem erase_last_nat {ν : Type} (init : KMap Nat ν) (h : Nat) (v : ν)
+    (hs : ((init ++ [(h, v)]).map (·.1)).Pairwise (· < ·)) : erase (init ++ [(h, v)]) h = init := by
+  unfold erase
+  rw [List.filter_append]
+  have h1 : List.filter (fun p : Nat × ν => !decide (p.1 = h)) init = init := by
+    rw [List.filter_eq_self]
+    intro q hq
+    rw [List.map_append, List.pairwise_append] at hs
+    have := hs.2.2 q.1 (List.mem_map.mpr ⟨q, hq, rfl⟩) h (by simp)
+    have : q.1 ≠ h := by omega
+    simp [this]
+  rw [h1]; simp
+
+end TxStore.KMap
